@@ -13,7 +13,7 @@ def key(case, variant, tag, step):
 
 def variants(idx):
     return dict(engine=["pickle", "csv"][idx % 2], shuffle=[False, 3, False, True][idx % 4], batchsize=[1, 2, 5][idx % 3],
-                nan_point=(idx % 3 == 1), flip_keys=(idx % 5 in (1, 2)), mixed_types=(idx % 3 == 2), compressed=(idx % 7 == 3), nd_result=(idx % 4 == 1))
+                nan_point=(idx % 3 == 1), flip_keys=(idx % 5 in (1, 2)), mixed_types=(idx % 3 == 2), compressed=(idx % 7 == 3), nd_result=(idx % 4 == 1), seq_const=(idx % 3 == 0))
 
 
 def random_choice_runs(rep, n):
